@@ -1488,3 +1488,7 @@ VP("C04-R3D-mut-yaml-wrap-drops-tree", "C04", "yaml wrapper writes an empty map 
    "return {self.root_key: tree} if self.root_key else tree", "return {self.root_key: {}} if self.root_key else tree")
 VP("C04-R3D-mut-bool-helper-case", "C05", "shared token helper compares without lower-casing", "C04-R3D", "cincoconfig/fields/bool_field.py",
    "    lowered = text.lower()", "    lowered = text")
+V("C15-includes-recurse-into-non-mapping", "C15", "D22 re-opened: nested scopes are processed for includes whatever the document holds there", CORE,
+  "            if tree.get(key) and isinstance(tree[key], dict):", "            if tree.get(key):")
+V("C15-set-value-loads-non-mapping", "C15", "a non-mapping value for a sub-configuration is handed to load_tree", CORE,
+  "        elif isinstance(value, dict) and isinstance(field, (Schema, ConfigTypeField)):", "        elif isinstance(field, (Schema, ConfigTypeField)):")
